@@ -54,7 +54,14 @@ def same_policy(a, b):
             and a.backoff_factor is b.backoff_factor and a.backoff_max is b.backoff_max
             and a.raise_on_redirect is b.raise_on_redirect and a.raise_on_status is b.raise_on_status
             and a.respect_retry_after_header is b.respect_retry_after_header
-            and a.backoff_jitter is b.backoff_jitter)
+            and a.backoff_jitter is b.backoff_jitter
+            and same_remove_set(a, b))
+
+
+def same_remove_set(a, b):
+    """the set of header names stripped on a cross-origin redirect is carried through every increment:
+    the new policy's set is the (lower-cased) image of the old policy's set"""
+    return a.remove_headers_on_redirect is b.remove_headers_on_redirect or uf("lowered_src", a.remove_headers_on_redirect) is b.remove_headers_on_redirect
 
 
 def method_retryable(r, method):
@@ -154,3 +161,28 @@ def valid_conn(c):
 
 def valid_response(r):
     return is_int(r.status) and isinstance(r.headers, HTTPHeaderDict)
+
+
+def valid_pool(p):
+    """class invariant of HTTPConnectionPool as far as urlopen relies on it (established by its constructor)"""
+    return (isinstance(p.timeout, Timeout) and valid_timeout(p.timeout) and p.timeout._start_connect is None
+            and (p.retries is None or p.retries is False or isinstance(p.retries, (int, Retry)))
+            and implies(isinstance(p.retries, Retry), valid_retry(p.retries))
+            and isinstance(p.headers, dict) and isinstance(p.proxy_headers, dict)
+            and (p.proxy is None or isinstance(p.proxy, Url))
+            and implies(p.proxy is not None, p.proxy.scheme is None or isinstance(p.proxy.scheme, str))
+            and is_int(p.num_requests)
+            and (p.proxy_config is None or isinstance(p.proxy_config, ProxyConfig)))
+
+
+def ghosts_typed(out, sends, waits, sleeps, clock, checkouts):
+    return is_int(out) and is_int(sends) and is_int(waits) and is_int(sleeps) and isinstance(clock, float) and is_int(checkouts)
+
+
+def spec_request_uri(u):
+    return (u.path if u.path else "/") + (("?" + u.query) if u.query is not None else "")
+
+
+def absolute_form_required(mgr, u):
+    """forwarding (no CONNECT tunnel) through a proxy needs the absolute URL in the request line"""
+    return mgr.proxy is not None and not tunnel_required(mgr.proxy, mgr.proxy_config, u.scheme)
